@@ -35,7 +35,7 @@ Qed.
 Inductive req_outcome (c : client) (w : world) (p : list N) (r : retv) (w' : world) : Prop :=
 | RO_deny : r = RetErr E_deny -> w' = w -> req_outcome c w p r w'
 | RO_max : r = RetErr E_max -> w' = w -> req_outcome c w p r w'
-| RO_closed : r = RetErr E_closed -> w' = w -> k_wsem c = WsClosed -> req_outcome c w p r w'
+| RO_closed : r = RetErr E_closed -> w' = w -> k_wsem c = WsClosed \/ k_closed c = true -> req_outcome c w p r w'
 | RO_down : r = RetErr E_down -> w' = w -> k_wsem c = WsDown -> req_outcome c w p r w'
 | RO_blocked : r = RetParked -> w' = w -> k_wsem c = WsPending -> req_outcome c w p r w'
 | RO_sent : forall cn tr,
@@ -165,8 +165,10 @@ Theorem op_ping_classes c w c' r w' :
 Proof.
   unfold op_ping. cbv zeta. change (k_ping (c <| k_nextr ::= N.succ |>)) with (k_ping c). intros H.
   destruct (k_ping c).
-  { apply ret_inv in H as [H ->]. inversion H. split; [discriminate|]. split; [discriminate|].
-    apply RO_max; auto. }
+  { change (k_closed (c <| k_nextr ::= N.succ |>)) with (k_closed c) in H.
+    destruct (k_closed c) eqn:Kc; apply ret_inv in H as [H ->]; inversion H;
+      (split; [discriminate|]); (split; [discriminate|]);
+      [apply RO_closed; auto|apply RO_max; auto]. }
   apply bind_inv in H as ([c2 wr] & w1 & Hw & H).
   apply op_write_inv in Hw as [(W & -> & -> & ->)|[(W & -> & -> & ->)|[(W & -> & -> & ->)|
                                (cn & e & tr & W & -> & G & Hwr)]]];
